@@ -19,7 +19,7 @@ P_NOISE = 0.02
 P_FORM = 0.04
 MAX_NOISE_BATCHES = 60        # per process: the noise is a probe for shared state, not a load test
 MAX_RAISES = 1
-MAX_SAME = 40
+MAX_SAME = 80
 NOISE_TEXTS = [
     "select a, b from t where x = 1; select 2; select 3",
     "create procedure p() begin if a then x; end if; end; select 1; select 2",
@@ -53,6 +53,11 @@ def _noise(op, arg):
                         t.value = t.value.swapcase()
                 if st.tokens:
                     st.tokens.pop()
+        elif op == 'same-split-strip':
+            real['split'](arg, strip_semicolon=True)
+            real['split'](arg)
+        elif op == 'same-format':
+            real['format'](arg[0], **arg[1])
         elif op == 'parse-mutate':
             for st in real['parse'](arg):
                 filters.StripWhitespaceFilter().process(st)
@@ -148,10 +153,14 @@ def _wrap(name):
             STATE['calls'] += 1
             if not STATE.get('battery'):
                 _battery()
-            if name == 'parse' and STATE['same'] < MAX_SAME and rng.random() < 0.02:
+            if STATE['same'] < MAX_SAME and len(sql) < 5000 and rng.random() < 0.03:
+                # the very text of the coming call goes through ANOTHER entry point / option set first (and returned trees are edited): a result
+                # cache keyed on the text, or objects shared between calls on equal text, would carry that over
                 STATE['same'] += 1
-                STATE['history'].append(['same-parse-mutate', sql])
-                _noise('same-parse-mutate', sql)
+                for op in rng.sample(['same-parse-mutate', 'same-split-strip', 'same-format'], 2):
+                    arg = [sql, rng.choice(NOISE_OPTS)] if op == 'same-format' else sql
+                    STATE['history'].append([op, arg])
+                    _noise(op, arg)
             if STATE['batches'] < MAX_NOISE_BATCHES and rng.random() < P_NOISE:
                 STATE['batches'] += 1
                 for _ in range(rng.randint(1, 3)):
